@@ -5,6 +5,11 @@ V = os.path.dirname(os.path.dirname(os.path.abspath(__file__)))
 props = [json.loads(l) for l in open(os.path.join(V, "properties.jsonl"))]
 
 CLAIMS = {
+ "C06": dict(
+   text="Lean model of the job table (insert_job, remove_pid_from_job, stopped/continued marking), of wait_fg_job over a queue of kernel notifications and of the prompt-time poll (handle_sigchld parking + try_wait_bg_jobs), and an abstract world of running/stopped/gone processes as reference. Theorems: a job launched under a new group id takes the smallest unused id (C06_new_id_least_unused), parking loses no exit notification (C06_park_keeps_exits), the foreground wait returns exactly at the notification completing its count and leaves the rest pending (C06_wait_returns_on_count); three finding classes are refuted against the world by kernel-checked witnesses. Tied to /repo by replaying 30 000 random histories (thorough 600 000; <= 3 jobs, <= 3 processes, non-monotone pids, stop/continue cycles ending in exit/kill, waits and polls at random delivery points) on the real Shell/jobc/signals code through scripted kernel notifications, compared with the model after every operation and with the world at the end.",
+   note="Trusted: Lean kernel; hand-written model; which notifications Linux can deliver is the generator's assumption; handle_sigchld's own four-way mapping is replaced by the hook's park_event in-process (exercised for real only by pty sessions); the refinement table = world on the finding-free domain is checked by the stream, not yet a theorem.",
+   technique="Lean 4 proof (induction over the id scan, over the notification queue) + model/implementation correspondence on operation histories",
+   design="DESIGN.md §6 C06"),
  "C15": dict(
    text="Lean 4 theorems over the model of scripting::expand_args: C15_pos_ref (in pre$Npost the reference is replaced by the N-th argument and the adjacent text is preserved, for every argument list, every pre/post free of `$` and newlines), C15_index / C15_missing_is_empty / C15_all (what the value is: the N-th argument, nothing past the end, the arguments from the first on joined by blanks), C15_sq_untouched. The model is tied to /repo by in-process streams on expand_args_for_single_token / expand_args over words of 1..5 literal / $n / ${n} / $@ segments (vs the Lean spec specArgs) under argument lists with blanks, quotes, `$1`, empty strings. Functions (both header spellings, names with - and _), source chains of depth 3 (variables, functions persist), `exit N`, `set -e`, and the status of scripts, sourced files and function calls are exercised on the real binary against the documented outcome; the function-status defect found there was repaired by a fix: commit.",
    note="Trusted: Lean kernel; hand-written model of positional expansion; functions, source, exit, set -e and statuses are checked by process-level scenarios only (not modelled in Lean): for those the assurance is that of a regression suite over generated scenarios, stated here rather than claimed as proof.",
